@@ -100,9 +100,21 @@ func (c *FnCtx) includeAxioms() []string {
 			calls := map[string]bool{}
 			collectCalls(ax.E, calls)
 			use := false
+			hasRec := false
 			for n := range calls {
+				if pf, ok := c.g.specs.Pures[n]; ok && pf.Body == nil {
+					hasRec = true
+				}
 				if c.pureDecl[n] {
 					use = true
+				}
+			}
+			if !hasRec {
+				// a fact about package variables: relevant once the query mentions one of them
+				for _, v := range pkgvarArgs(ax.E) {
+					if c.extGlobals[v] {
+						use = true
+					}
 				}
 			}
 			if !use {
@@ -181,3 +193,21 @@ func (c *FnCtx) Emit(active map[*Oblig]bool) string {
 	return sb.String()
 }
 
+
+func pkgvarArgs(e *Expr) []string {
+	var out []string
+	var walk func(x *Expr)
+	walk = func(x *Expr) {
+		if x == nil {
+			return
+		}
+		if x.Op == "call" && x.Name == "pkgvar" && len(x.Args) == 1 && x.Args[0].Op == "str" {
+			out = append(out, x.Args[0].Name)
+		}
+		for _, a := range x.Args {
+			walk(a)
+		}
+	}
+	walk(e)
+	return out
+}
